@@ -412,6 +412,29 @@ def check(ctx):
             ctx.sample(dict(input=s, real=r.dump[:160]))
         if in_alphabet(s):
             cases.append(("lex " + hexs(s), r.dump, s))
+    # ---- EVERY character the tokeniser skips as whitespace on the reviewed tree (all of `str.isspace`: NBSP, the thin / en / em
+    # spaces, U+2028/2029, U+3000, the separators \x1c-\x1f, \x85 …) is interchangeable with a blank between two tokens
+    import sys as _sys
+    allws = [chr(c) for c in range(_sys.maxunicode + 1) if chr(c).isspace()]
+    progs = [["1", "+", "2", "*", "3"], ["5", "km", "to", "m"], ["x", "=", "0x1F", ";", "x", "in", "{", "31", "}"], ["\"a b\"", ",", "#2020-01-01#"],
+             ["3", "!", "/", "2", "!"], ["1.5e3", "..", "7"], ["f", "(", "k", ":", "1", ")"]]
+    def sig(text):
+        try:
+            return [(t.tag, text[t.begin_index_incl:t.end_index_excl]) for t in T.tokenise(text)]
+        except Exception as e:  # noqa
+            return type(e).__name__ + ":" + str(getattr(e, "index", ""))
+    for pr in progs:
+        base = sig(" ".join(pr))
+        if not isinstance(base, list) or [b[1] for b in base] != pr:
+            continue
+        for w in allws:
+            for text in (w.join(pr), w + " ".join(pr) + w, (w + w).join(pr)):
+                got = sig(text)
+                ctx.count("ws-any:" + hexs(text), bucket="every whitespace character as separator")
+                if got != base:
+                    ctx.violation("lex-ws:" + " ".join(pr) + " with U+%04X" % ord(w), text, "the tokens of %r" % " ".join(pr),
+                                  got if isinstance(got, str) else "%d tokens: %r" % (len(got), got[:6]), "ka.tokens.tokenise(%r)" % text)
+                    break
     ctx.cov["whitespace_insertion_relexes"] = ws_runs
     ctx.cov["exhaustive_strings"] = n_exh
     ctx.correspond("lex", cases, describe=lambda s: repr(s))
